@@ -1,4 +1,5 @@
-use std::{cell::Cell, fmt, future::Future, future::ready, num::NonZeroU16, rc::Rc};
+use std::task::{Context, Poll, Waker, ready};
+use std::{cell::Cell, fmt, future::Future, future::ready, num::NonZeroU16, pin::Pin, rc::Rc};
 
 use ntex_bytes::{ByteString, Bytes};
 use ntex_util::{channel::pool, future::Either, future::Ready};
@@ -361,11 +362,8 @@ impl PublishBuilder {
             self.packet,
             Some(payload),
         );
-        async move {
-            rx?.await
-                .map(move |_| PublishReceived { packet_id: Some(idx), shared: self.shared })
-                .map_err(|_| SendPacketError::Disconnected)
-        }
+        let rx = rx.map(|rx| ReceiptWaiter { idx, rx: Some(rx), shared: self.shared });
+        async move { rx?.await }
     }
 
     /// Send publish packet with `QoS 1`
@@ -416,6 +414,45 @@ impl PublishBuilder {
             let _ = tx.send(());
 
             rx?.await.map(|_| ()).map_err(|_| SendPacketError::Disconnected)
+        }
+    }
+}
+
+/// Waits for PUBREC packet.
+///
+/// If the future is dropped after PUBREC is received, publish gets released.
+struct ReceiptWaiter {
+    idx: NonZeroU16,
+    rx: Option<pool::Receiver<Ack>>,
+    shared: Rc<MqttShared>,
+}
+
+impl Future for ReceiptWaiter {
+    type Output = Result<PublishReceived, SendPacketError>;
+
+    fn poll(mut self: Pin<&mut Self>, cx: &mut Context<'_>) -> Poll<Self::Output> {
+        let Some(rx) = self.rx.as_ref() else {
+            return Poll::Ready(Err(SendPacketError::Disconnected));
+        };
+        let result = ready!(rx.poll_recv(cx));
+        self.rx = None;
+        Poll::Ready(
+            result
+                .map(|_| PublishReceived {
+                    packet_id: Some(self.idx),
+                    shared: self.shared.clone(),
+                })
+                .map_err(|_| SendPacketError::Disconnected),
+        )
+    }
+}
+
+impl Drop for ReceiptWaiter {
+    fn drop(&mut self) {
+        if let Some(rx) = self.rx.take()
+            && let Poll::Ready(Ok(_)) = rx.poll_recv(&mut Context::from_waker(Waker::noop()))
+        {
+            drop(PublishReceived { packet_id: Some(self.idx), shared: self.shared.clone() });
         }
     }
 }
